@@ -310,7 +310,10 @@ def run_attack(actions, leaf, cred_i, cred_r, auth, seed, old_auth, r_variant=No
             elif name == 'ImpMsg4':
                 cur = w.dispatch('A', forge_auth_response(mitm, w, bytes(cur), a['forge']), 'B')
             elif name == 'Msg1':
+                genuine = bytes(cur)
                 cur = w.dispatch('B', mitm.msg1(cur, a['s']), 'A')
+                if a.get('replay'):
+                    w.dispatch('B', genuine, 'A')          # the genuine request, late: a second IKE_SA_INIT request with the same SPI (its answer is discarded)
             elif name == 'Msg2':
                 cur = w.dispatch('A', mitm.msg2(bytes(cur), a['s'], a['chosen']), 'B')
             elif name == 'Msg3':
